@@ -223,3 +223,11 @@ func splitN(s, sep string, n int) []string {
 func init() {
 	debugRules["sibop"] = func(c *Ctx, r *Report) { ruleOpSiblings(c, r, "") }
 }
+
+func init() {
+	debugCmds["funcs"] = func(c *Ctx) {
+		for _, fn := range c.modFuncs {
+			fmt.Println(FnName(fn))
+		}
+	}
+}
